@@ -140,7 +140,13 @@ class TArr:
             return TSum.of(self).pv_binop(ip, opname, other, reflected)
         if opname == 'mul':
             if isinstance(other, TArr):
-                raise Unsupported('elementwise product of tensors')
+                # element-wise (Hadamard) product of equally shaped arrays: the same open indices on both (no broadcasting modelled)
+                a, b = self.relabel(), other.relabel()
+                if a.rank != b.rank or any(isinstance(l, tuple) for l in a.out + b.out) or len(set(a.out)) != a.rank or len(set(b.out)) != b.rank:
+                    raise Unsupported('elementwise product of tensors of different rank / reshaped legs')
+                ren = dict(zip(b.out, a.out))
+                bf = [(s_, tuple(ren.get(l, l) for l in ls)) for s_, ls in b.factors]
+                return TArr(a.factors + bf, list(a.out), a.coeff + b.coeff)
             if isinstance(other, TSum):
                 raise Unsupported('product of sums of tensors')
             from .values import Cx
